@@ -147,7 +147,7 @@ class Ev:
     def __init__(self, module, sem="mlir", fuel=FUEL_PY):
         self.module, self.sem, self.fuel = module, sem, fuel
         self.log, self.loops, self.nonpos = [], [], False
-        self.mem_trace, self.syms = [], {}
+        self.mem_trace, self.syms, self.outer, self.outer_read = [], {}, set(), set()
         self.funcs = {}
         for op in module.body.block.ops:
             if op.name == "func.func":
@@ -313,14 +313,17 @@ class Ev:
             return None
         if n == "symref.update":
             name = op.symbol.root_reference.data
-            if name not in self.syms:
-                raise Trap("update of an undeclared symbol")
+            if name not in self.syms or name in self.outer_read:
+                self.outer.add(name)               # a WRITTEN cell of an enclosing scope: observable afterwards
             self.syms[name] = g(op.operands[0])
             return None
         if n == "symref.fetch":
             name = op.symbol.root_reference.data
-            if self.syms.get(name) is None:
-                raise Trap("fetch of an undeclared / uninitialised symbol")
+            if name not in self.syms:
+                self.outer_read.add(name)          # a cell of an enclosing scope: defined content on entry
+                self.syms[name] = 100 + sum(map(ord, name)) % 50
+            if self.syms[name] is None:
+                raise Trap("fetch of a declared but uninitialised symbol")
             env[op.results[0]] = self.syms[name]
             return None
         if n == "memref.alloc":
@@ -424,6 +427,8 @@ def evaluate(module, args, sem="mlir", fname="f"):
         ret, st = [], "fuel"
     except RecursionError:
         ret, st = [], "fuel"
+    for name in sorted(ev.outer):          # the final content of enclosing-scope cells is observable
+        ev.log.append([ev.syms[name]])
     return {"status": st, "ret": ret, "log": ev.log, "loops": ev.loops, "nonpos": ev.nonpos, "mem": ev.mem_trace}
 
 
@@ -1904,7 +1909,9 @@ def cfh_cases(rng, n):
                         ops.append({"k": k, "a": a, "b": b})
                         break
             return ops
-        out.append({"then": branch(), "else": branch(), "inputs": rand_inputs(rng, 5, -3, 6)})
+        # both branch directions with zero divisors among the arguments (the op of the branch NOT taken must not trap)
+        zs = [[0, 1, rng.randint(0, 4), 0], [1, 0, 0, rng.randint(0, 4)], [0, 1, 0, 0], [2, 1, 0, 0]]
+        out.append({"then": branch(), "else": branch(), "inputs": rand_inputs(rng, 3, -3, 6) + zs})
     return out
 
 
@@ -2015,12 +2022,13 @@ def desym_cases(rng, n):
     for _ in range(n):
         nsym = rng.randint(1, 3)
         ops, vals, init, nf, nu = [], [["k", 0], ["k", 3], ["a", 0], ["a", 1]], set(), 0, 0
-        for s in range(nsym):
+        declared = [s for s in range(nsym) if rng.random() < 0.65]      # the others live in an enclosing scope
+        for s in declared:
             ops.append(["decl", s])
         for _ in range(rng.randint(2, 10)):
             x = rng.random()
             s = rng.randrange(nsym)
-            if x < 0.4 or s not in init:
+            if x < 0.4 or (s in declared and s not in init):
                 ops.append(["upd", s, rng.choice(vals)])
                 init.add(s)
             elif x < 0.75:
@@ -2241,8 +2249,8 @@ FAMILIES = {
     "control-flow-hoist": (cfh_cases, cfh_impl, cfh_coq, cfh_known, cfh_nontrivial),
     "desymref": (desym_cases, desym_impl, desym_coq, None, desym_nontrivial),
 }
-SIZES = {"quick": {"scf-to-cf": 50, "range-folding": 80, "flatten": 90, "unroll": 70, "licm": 70,
-                   "lower-affine": 120, "programs": 50, "lower-affine-for-load-store": 50, "index-switch": 50,
+SIZES = {"quick": {"scf-to-cf": 50, "range-folding": 75, "flatten": 80, "unroll": 70, "licm": 70,
+                   "lower-affine": 100, "programs": 40, "lower-affine-for-load-store": 50, "index-switch": 50,
                    "control-flow-hoist": 70, "desymref": 70, "desymref-nested": 20},
          "thorough": {"scf-to-cf": 900, "range-folding": 1500, "flatten": 2000, "unroll": 1200, "licm": 1500,
                       "lower-affine": 3000, "programs": 1500, "lower-affine-for-load-store": 1200,
